@@ -122,7 +122,12 @@ def h_reference_verbatim(locus):
         gi = readfam.build_locus(locus, 6)
         gi.other_features = {t: [] for t in gi.all_isoforms_exons}
         gi.feature_attributes = {}
-        gi.get_gene_regions = lambda: {}
+        regions = {}
+        for t, gid, strand, ex in readfam.LOCI[locus]:
+            lo, hi = regions.get(gid, (ex[0][0], ex[-1][1]))
+            regions[gid] = (min(lo, ex[0][0]), max(hi, ex[-1][1]))
+        gi.get_gene_regions = lambda: dict(regions)
+        gi.empty = lambda: False
         models = [call(g, TranscriptModel.from_reference_transcript, gi, t) for t in gi.all_isoforms_exons]
         # one novel model with symbolic ends on top of the reference ones
         ref = readfam.LOCI[locus][0]
